@@ -76,6 +76,18 @@ func genRangeQ(r *vk.RNG, msg bool) *RangeQ {
 				q.Unwrap = "v"
 			}
 		}
+		if r.Chance(1, 4) {
+			// filters after the unwrap expression decide which samples are taken
+			for i := 0; i < r.Range(1, 2); i++ {
+				op := vk.Pick(r, allStrOps)
+				lbl := vk.Pick(r, []string{"g", "app", "pad", "nosuch"})
+				val := vk.Pick(r, []string{"x", "y", "a", "", "yyyy"})
+				if op == logql.OpRe || op == logql.OpNotRe {
+					val = vk.Pick(r, []string{"x|y", "a", ".*", ".+", "z?"})
+				}
+				q.UnwrapFilters = append(q.UnwrapFilters, selMatcher{Label: lbl, Op: op, OpS: opText(op), Value: val})
+			}
+		}
 		switch q.Fn {
 		case "avg_over_time", "min_over_time", "max_over_time", "stddev_over_time", "stdvar_over_time", "quantile_over_time", "first_over_time", "last_over_time":
 			if r.Chance(1, 2) {
